@@ -52,6 +52,28 @@ def run_searches(res, tasks):
     return table
 
 
+def _raw_task(task):
+    from . import rawsearch
+    tag, kw, rawkw = task
+    a = S.solve(S.Problem(**kw), want_path=False)
+    b = rawsearch.solve_raw(API=API, **rawkw)
+    return {"tag": tag, "norm": a["opt"], "raw": b["opt"],
+            "states": b["states"], "transitions": b["transitions"]}
+
+
+def raw_crosscheck(res, tasks):
+    """Harness self-check: on tiny instances the optimum of the normalised
+    search (E3) must equal the optimum over the *raw* action alphabet explored
+    directly on Machine.step (vf/rawsearch.py) -- the same transition function
+    that accepts the library's streams, with restart-data coverage tracked."""
+    for o in common.pmap_dynamic(_raw_task, tasks):
+        res.add(states=o["states"], transitions=o["transitions"])
+        res.count("raw_alphabet_crosschecks")
+        if o["norm"] != o["raw"]:
+            res.harness_error(f"normalised search {o['norm']} != raw-alphabet "
+                              f"search {o['raw']} at {o['tag']}")
+
+
 def clear_memo(fn):
     """Empty the memo table of a repo function decorated with cache_step (a
     dict in the wrapper's closure) or functools caches.  Best effort: if the
@@ -136,6 +158,11 @@ def check_c05(prop, tier):
         for s in range(1, max(1, n - 1) + 1):
             tasks.append(((n, s), dict(N=n, b_ram=s, b_disk=0)))
     tabA = run_searches(res, tasks)
+    nraw = 4 if tier == "quick" else 6
+    raw_crosscheck(res, [(("bin", n, s), dict(N=n, b_ram=s, b_disk=0),
+                          dict(N=n, b_ram=s, b_disk=0, costs=(1, 0, 0, 0)))
+                         for n in range(1, nraw + 1)
+                         for s in range(1, max(1, n - 1) + 1)])
 
     def optA(n, s):
         return tabA[(n, min(s, max(1, n - 1)))]["opt"]
@@ -268,6 +295,13 @@ def check_c06(prop, tier):
     for n in range(2, min(B["S"], 6) + 1):
         tasks.append(((n, 2, "DISK"), dict(N=n, b_ram=0, b_disk=2, mixed=True)))
     tabA = run_searches(res, tasks)
+    nraw = 4 if tier == "quick" else 6
+    raw_crosscheck(res, [(("mixed", n, s),
+                          dict(N=n, b_ram=s, b_disk=0, mixed=True),
+                          dict(N=n, b_ram=s, b_disk=0, costs=(1, 0, 0, 0),
+                               mixed=True))
+                         for n in range(1, nraw + 1)
+                         for s in range(1, max(1, n - 1) + 1)])
     for tag, o in tabA.items():
         n, s = tag[0], tag[1]
         if refs.mixed_total_steps(n, s) != o["opt"]:
@@ -386,6 +420,24 @@ def check_c07(prop, tier):
     # largest first: better load balance
     tasks.sort(key=lambda t: -t[1]["N"])
     tabA = run_searches(res, tasks)
+    nraw = 3 if tier == "quick" else 4
+    rawcosts = [costs[0], costs[3], costs[-1]] if tier == "quick" else \
+        [costs[0], costs[2], costs[3], costs[7], costs[10], costs[-2]]
+    rt = []
+    for n in range(2, nraw + 1):
+        for ram in (1, 2):
+            for cv in rawcosts:
+                for disk in (0, 1, 2):
+                    rt.append((("H", n, ram, disk, cv),
+                               dict(N=n, b_ram=ram, b_disk=disk, costs=cv),
+                               dict(N=n, b_ram=ram, b_disk=disk, costs=cv)))
+                rt.append((("D", n, ram, cv),
+                           dict(N=n, b_ram=ram, b_disk=n, costs=cv,
+                                read_once=True),
+                           dict(N=n, b_ram=ram, b_disk=n, costs=cv,
+                                read_once=True)))
+    rt.sort(key=lambda t: -t[1]["N"])
+    raw_crosscheck(res, rt)
 
     # ---- tier B validated on the overlap
     refcache = {}
